@@ -1617,7 +1617,7 @@ Definition simple_ok (e : event) : Prop :=
   | ENan _ => True
   | EDecimal d => dfloat_small_ok d = true
   | EBigDecimal None => True
-  | EBigDecimal (Some (DFin neg c e)) => c <> 0 /\ (Z.abs e < 2147483648)%Z
+  | EBigDecimal (Some (DFin neg c e)) => is_i32 e = true /\ (c <> 0 -> (Z.abs e < 2147483648)%Z)
   | EBigDecimal (Some _) => True
   | EUid b => bytes_wf b /\ len b = 16
   | ERecordType id | ERecord id | EMarker id | ERefLocal id => bytes_wf id /\ id_ok id
@@ -1817,7 +1817,13 @@ Proof.
     + exists (enc_nan true). apply unit_special; [reflexivity | reflexivity | discriminate | apply (tok_nan cfg true)].
   - (* EBigDecimal *) destruct v as [d|].
     + destruct d as [neg c e|neg| |]; cbn [norm_decimal].
-      * destruct H as [Hc He]. replace (c =? 0) with false by (symmetry; apply N.eqb_neq; exact Hc).
+      * destruct H as [Hi He]. destruct (N.eqb_spec c 0) as [Hc|Hc].
+        { subst c. exists (enc_zero neg). apply unit_special.
+          - intro st. unfold cbe_encode_event, opt_map, enc_big_decimal. rewrite Hi. reflexivity.
+          - intro st. destruct neg; reflexivity.
+          - destruct neg; discriminate.
+          - apply tok_zero. }
+        specialize (He Hc).
         exists (cbeTypeDecimal :: uleb_encode (cf_field neg e) ++ uleb_encode c). split.
         -- apply encodes_keep. intro st. unfold cbe_encode_event, opt_map, enc_big_decimal.
            rewrite is_i32_abs by exact He. cbn [negb].
@@ -2051,7 +2057,7 @@ Definition simple_okb (e : event) : bool :=
   | ENan _ => true
   | EDecimal d => dfloat_small_ok d
   | EBigDecimal None => true
-  | EBigDecimal (Some (DFin neg c e)) => negb (c =? 0) && (Z.abs e <? 2147483648)%Z
+  | EBigDecimal (Some (DFin neg c e)) => is_i32 e && ((c =? 0) || (Z.abs e <? 2147483648)%Z)
   | EBigDecimal (Some _) => true
   | EUid b => bytes_wfb b && (len b =? 16)
   | ERecordType id | ERecord id | EMarker id | ERefLocal id => bytes_wfb id && id_okb id
@@ -2085,7 +2091,8 @@ Proof.
     destruct (bigfloat_to_f64 neg mant exp) as [b|]; [|discriminate]. apply N.ltb_lt. exact H.
   - exact H.
   - destruct v as [[neg c e|neg| |]|]; try exact I.
-    apply andb_true_iff in H as [H1 H2]. apply negb_true_iff, N.eqb_neq in H1. apply Z.ltb_lt in H2. auto.
+    apply andb_true_iff in H as [H1 H2]. split; [exact H1|]. intro Hc.
+    apply orb_true_iff in H2 as [H2|H2]; [apply N.eqb_eq in H2; contradiction | apply Z.ltb_lt; exact H2].
   - apply andb_true_iff in H as [H1 H2]. split; [apply bytes_wfb_wf; exact H1 | apply N.eqb_eq; exact H2].
   - apply andb_true_iff in H as [H1 H2]. split; [apply bytes_wfb_wf; exact H1|].
     unfold id_okb in H2. apply andb_true_iff in H2 as [A B]. split; [apply N.leb_le; exact A | apply N.leb_le; exact B].
@@ -2295,22 +2302,8 @@ Definition reencode_full : Prop :=
   forall es doc, cbe_encode es = Some doc ->
     snd (cbe_decode default_dcfg doc) = DOk /\ cbe_encode (fst (cbe_decode default_dcfg doc)) = Some doc.
 
-Definition bigdecimal_zero_doc : list event := [EBeginDoc; EVersion 0; EBigDecimal (Some (DFin false 0 0)); EEndDoc].
-Definition bigdecimal_negzero_doc : list event := [EBeginDoc; EVersion 0; EBigDecimal (Some (DFin true 0 0)); EEndDoc].
 Definition bigdecimal_expmin_doc : list event :=
   [EBeginDoc; EVersion 0; EBigDecimal (Some (DFin false 7 (-2147483648))); EEndDoc].
-
-(* a big decimal zero is written as 76 02, read back as the DFloat zero, and that is written as 00 *)
-Lemma reencode_bigdecimal_zero :
-  cbe_encode bigdecimal_zero_doc = Some [129; 0; 118; 2] /\
-  cbe_decode default_dcfg [129; 0; 118; 2] = ([EBeginDoc; EVersion 0; EDecimal (DFin false 0 0); EEndDoc], DOk) /\
-  cbe_encode (fst (cbe_decode default_dcfg [129; 0; 118; 2])) = Some [129; 0; 0].
-Proof. vm_compute. repeat split. Qed.
-
-Lemma reencode_bigdecimal_negzero :
-  cbe_encode bigdecimal_negzero_doc = Some [129; 0; 118; 3] /\
-  cbe_encode (fst (cbe_decode default_dcfg [129; 0; 118; 3])) = Some [129; 0; 105; 0].
-Proof. vm_compute. repeat split. Qed.
 
 (* an apd exponent of MinInt32 is written as a field the decoder rejects *)
 Lemma reencode_bigdecimal_expmin :
@@ -2320,8 +2313,8 @@ Proof. vm_compute. split; reflexivity. Qed.
 
 Theorem reencode_full_refuted : ~ reencode_full.
 Proof.
-  intro H. destruct reencode_bigdecimal_zero as (E1 & _ & E3).
-  destruct (H bigdecimal_zero_doc _ E1) as [_ C]. rewrite E3 in C. discriminate.
+  intro H. destruct reencode_bigdecimal_expmin as (E1 & E2).
+  destruct (H bigdecimal_expmin_doc _ E1) as [C _]. rewrite E2 in C. discriminate.
 Qed.
 
 (* ------------------------------------------------------------------ *)
@@ -2352,6 +2345,7 @@ Definition ex_doc : list event :=
    EArrayBegin cbeAT_Uint8; EArrayChunk 3 false; EArrayData [1; 2; 3];
    EMedia [97; 47; 98] [1; 2]; ECustomBin 9 [7]; EMarker [109; 49]; ERefLocal [109; 49];
    EDecimal (DFin true 15 (-1)); EBigDecimal (Some (DFin false 18446744073709551616 3));
+   EBigDecimal (Some (DFin true 0 5));
    EComment false [120]; EPadding; EBool true; ENull; EEnd; EEndDoc].
 
 Example ex_doc_covered : doc_okb ex_doc = true.
